@@ -2,7 +2,9 @@ package micro
 
 import (
 	"context"
+	"errors"
 	"testing"
+	"time"
 
 	"github.com/micro/go-micro/v2/client"
 	"github.com/micro/go-micro/v2/codec"
@@ -45,13 +47,68 @@ func (s *vSStream) Close() error             { return nil }
 // vClient stands in for go-micro's rpc client below the wrapper.  It treats call options exactly as
 // rpcClient does (client/rpc_client.go v2.9.1): Call applies the options and wraps the transport call with
 // CallOptions.CallWrappers (first wrapper outermost); Stream applies the options and ignores CallWrappers.
-// The "transport call" is the driver's handler.
+// The "transport call" is the driver's handler.  Like rpcClient.Call / Stream the stand-in is LAYERED (vLayers):
+//
+//	pre   r.next(): the service is looked up in the registry - fails for a service the registry does not know (err@registry)
+//	pre   "should we noop right here?": the caller's context is already done -> timeout error (err@ctx)
+//	pre   per attempt: CallOptions.Backoff; its error ends the call as "backoff error" (err@backoff)
+//	node  the per-node call function (for Call: inside the CallWrappers)
+//	post  a node error is shown to CallOptions.Retry; an error of the hook itself replaces the node's (err@retry)
+//
+// The driver arranges the layers with real inputs (cancelled context, client.WithBackoff / client.WithRetry call options
+// handed to the wrapper, which must forward them); only the registry content is told through the outcome.
 type vClient struct {
 	client.Client
 	outcome *string
 }
 
 var vNode = &registry.Node{Id: "verif-1", Address: "10.0.0.1:9000"}
+
+var vHookErr = errors.New("verif: call option hook failed")
+
+func (c vClient) vLayers(ctx context.Context, req client.Request, co client.CallOptions, node func() error) error {
+	oc := *c.outcome
+	if oc == "err@registry" {
+		return VHit(oc) // the downstream call was entered and failed: service not found
+	}
+	if ctx.Err() != nil {
+		return VHit(oc)
+	}
+	if co.Backoff != nil {
+		if _, err := co.Backoff(ctx, req, 0); err != nil {
+			_ = VHit(oc)
+			return errors.New("backoff error: " + err.Error())
+		}
+	}
+	err := node()
+	if err == nil {
+		return nil
+	}
+	if co.Retry != nil {
+		if _, rerr := co.Retry(ctx, req, 0, err); rerr != nil {
+			return rerr
+		}
+	}
+	return err
+}
+
+// vArrange turns a layered outcome into the context and call options of the request.
+func vArrange(oc string) (context.Context, []client.CallOption) {
+	ctx := context.Background()
+	switch oc {
+	case "err@ctx":
+		cctx, cancel := context.WithCancel(ctx)
+		cancel()
+		return cctx, nil
+	case "err@backoff":
+		return ctx, []client.CallOption{client.WithBackoff(func(context.Context, client.Request, int) (time.Duration, error) { return 0, vHookErr })}
+	case "err@retry":
+		return ctx, []client.CallOption{client.WithRetry(func(context.Context, client.Request, int, error) (bool, error) { return false, vHookErr })}
+	}
+	return ctx, nil
+}
+
+var vCallLayers = []string{"err@registry", "err@ctx", "err@backoff", "err@retry"}
 
 func (c vClient) Call(ctx context.Context, req client.Request, rsp interface{}, opts ...client.CallOption) error {
 	var co client.CallOptions
@@ -64,7 +121,7 @@ func (c vClient) Call(ctx context.Context, req client.Request, rsp interface{}, 
 	for i := len(co.CallWrappers); i > 0; i-- {
 		call = co.CallWrappers[i-1](call)
 	}
-	return call(ctx, vNode, req, rsp, co)
+	return c.vLayers(ctx, req, co, func() error { return call(ctx, vNode, req, rsp, co) })
 }
 
 func (c vClient) Stream(ctx context.Context, req client.Request, opts ...client.CallOption) (client.Stream, error) {
@@ -72,7 +129,7 @@ func (c vClient) Stream(ctx context.Context, req client.Request, opts ...client.
 	for _, o := range opts {
 		o(&co)
 	}
-	return nil, VHit(*c.outcome)
+	return nil, c.vLayers(ctx, req, co, func() error { return VHit(*c.outcome) })
 }
 
 func vIsBlock(err error) bool {
@@ -116,20 +173,21 @@ func TestVerifDriver(t *testing.T) {
 			if outlierOn {
 				req = vCReq{service: svc(v)(blocked), method: "Verif.Outlier.Call"}
 			}
-			return vIsBlock(c.Call(context.Background(), req, nil))
+			ctx, copts := vArrange(oc)
+			return vIsBlock(c.Call(ctx, req, nil, copts...))
 		}
 	}
 	cases = append(cases,
-		VCase{Ep: "NewClientWrapper/Call", Side: "client", Variant: "default", Wraps: true, Errsig: true, Fb: "default", Res: meth("cd"), Send: call("cd", false)},
-		VCase{Ep: "NewClientWrapper/Call", Side: "client", Variant: "extractor", Options: []string{"WithClientResourceExtractor"}, Wraps: true, Errsig: true, Fb: "default",
+		VCase{Ep: "NewClientWrapper/Call", Side: "client", Layers: vCallLayers, Variant: "default", Wraps: true, Errsig: true, Fb: "default", Res: meth("cd"), Send: call("cd", false)},
+		VCase{Ep: "NewClientWrapper/Call", Side: "client", Layers: vCallLayers, Variant: "extractor", Options: []string{"WithClientResourceExtractor"}, Wraps: true, Errsig: true, Fb: "default",
 			Res: custom("ce"), Send: call("ce", false, cEx)},
-		VCase{Ep: "NewClientWrapper/Call", Side: "client", Variant: "fallback", Options: []string{"WithClientBlockFallback"}, Wraps: true, Errsig: true, Fb: "custom",
+		VCase{Ep: "NewClientWrapper/Call", Side: "client", Layers: vCallLayers, Variant: "fallback", Options: []string{"WithClientBlockFallback"}, Wraps: true, Errsig: true, Fb: "custom",
 			Res: meth("cf"), Send: call("cf", false, cFb)},
-		VCase{Ep: "NewClientWrapper/Call", Side: "client", Variant: "extractor+fallback+outlier-off", Options: []string{"WithClientResourceExtractor", "WithClientBlockFallback", "WithEnableOutlier"},
+		VCase{Ep: "NewClientWrapper/Call", Side: "client", Layers: vCallLayers, Variant: "extractor+fallback+outlier-off", Options: []string{"WithClientResourceExtractor", "WithClientBlockFallback", "WithEnableOutlier"},
 			Wraps: true, Errsig: true, Fb: "custom", Res: custom("cef"), Send: call("cef", false, cEx, cFb, off)},
-		VCase{Ep: "NewClientWrapper/Call", Side: "client", Variant: "outlier", Options: []string{"WithEnableOutlier"}, Wraps: true, Errsig: true, Fb: "default", Private: true,
+		VCase{Ep: "NewClientWrapper/Call", Side: "client", Layers: vCallLayers, Variant: "outlier", Options: []string{"WithEnableOutlier"}, Wraps: true, Errsig: true, Fb: "default", Private: true,
 			Res: svc("co"), Send: call("co", true, on)},
-		VCase{Ep: "NewClientWrapper/Call", Side: "client", Variant: "outlier+fallback", Options: []string{"WithEnableOutlier", "WithClientBlockFallback"}, Wraps: true, Errsig: true,
+		VCase{Ep: "NewClientWrapper/Call", Side: "client", Layers: vCallLayers, Variant: "outlier+fallback", Options: []string{"WithEnableOutlier", "WithClientBlockFallback"}, Wraps: true, Errsig: true,
 			Fb: "custom", Private: true, Res: svc("cof"), Send: call("cof", true, on, cFb)},
 	)
 
@@ -147,25 +205,26 @@ func TestVerifDriver(t *testing.T) {
 			if outlierOn {
 				req = vCReq{service: svc(v)(blocked), method: "Verif.Outlier.Stream"}
 			}
-			_, err := c.Stream(context.Background(), req)
+			ctx, copts := vArrange(oc)
+			_, err := c.Stream(ctx, req, copts...)
 			return vIsBlock(err)
 		}
 	}
 	cases = append(cases,
-		VCase{Ep: "NewClientWrapper/Stream", Side: "client", Variant: "default", Wraps: true, Errsig: true, Fb: "default", Res: meth("sd"), Send: stream("sd", false)},
-		VCase{Ep: "NewClientWrapper/Stream", Side: "client", Variant: "extractor", Options: []string{"WithStreamClientResourceExtractor"}, Wraps: true, Errsig: true,
+		VCase{Ep: "NewClientWrapper/Stream", Side: "client", Layers: vCallLayers, Variant: "default", Wraps: true, Errsig: true, Fb: "default", Res: meth("sd"), Send: stream("sd", false)},
+		VCase{Ep: "NewClientWrapper/Stream", Side: "client", Layers: vCallLayers, Variant: "extractor", Options: []string{"WithStreamClientResourceExtractor"}, Wraps: true, Errsig: true,
 			Fb: "default", Res: custom("se"), Send: stream("se", false, sEx)},
-		VCase{Ep: "NewClientWrapper/Stream", Side: "client", Variant: "fallback", Options: []string{"WithStreamClientBlockFallback"}, Wraps: true, Errsig: true, Fb: "custom",
+		VCase{Ep: "NewClientWrapper/Stream", Side: "client", Layers: vCallLayers, Variant: "fallback", Options: []string{"WithStreamClientBlockFallback"}, Wraps: true, Errsig: true, Fb: "custom",
 			Res: meth("sf"), Send: stream("sf", false, sFb)},
-		VCase{Ep: "NewClientWrapper/Stream", Side: "client", Variant: "extractor+fallback", Options: []string{"WithStreamClientResourceExtractor", "WithStreamClientBlockFallback"},
+		VCase{Ep: "NewClientWrapper/Stream", Side: "client", Layers: vCallLayers, Variant: "extractor+fallback", Options: []string{"WithStreamClientResourceExtractor", "WithStreamClientBlockFallback"},
 			Wraps: true, Errsig: true, Fb: "custom", Res: custom("sef"), Send: stream("sef", false, sEx, sFb)},
 	)
 	// the outlier branch of Stream appends slots to the GLOBAL chain on every call: run it last; observed through the
 	// statistic node so that the driver also works once the branch builds a private chain like Call does
 	last = append(last,
-		VCase{Ep: "NewClientWrapper/Stream", Side: "client", Variant: "outlier", Options: []string{"WithEnableOutlier"}, Wraps: true, Errsig: true, Fb: "default",
+		VCase{Ep: "NewClientWrapper/Stream", Side: "client", Layers: vCallLayers, Variant: "outlier", Options: []string{"WithEnableOutlier"}, Wraps: true, Errsig: true, Fb: "default",
 			Private: true, Res: svc("so"), Send: stream("so", true, on)},
-		VCase{Ep: "NewClientWrapper/Stream", Side: "client", Variant: "outlier+fallback", Options: []string{"WithEnableOutlier", "WithStreamClientBlockFallback"}, Wraps: true,
+		VCase{Ep: "NewClientWrapper/Stream", Side: "client", Layers: vCallLayers, Variant: "outlier+fallback", Options: []string{"WithEnableOutlier", "WithStreamClientBlockFallback"}, Wraps: true,
 			Errsig: true, Fb: "custom", Private: true, Res: svc("sof"), Send: stream("sof", true, on, sFb)},
 	)
 
